@@ -41,30 +41,62 @@ type lOp struct {
 	N    int64  `json:"n,omitempty"`
 	DT   int64  `json:"dt,omitempty"`
 	Idx  int    `json:"idx,omitempty"`
+	// two-pool markets (lHist.Two): which oracle pool the op names. 0 = uusdc/uatom (the default, so stored histories replay
+	// unchanged), 1 = the second oracle pool uusdc/aweth (18 decimals, price 2000). Ignored (= 0) in a one-pool market.
+	Q int `json:"q,omitempty"`
+	// amounts are written in 6-decimals units of uatom-like value; an amount of aweth is scaled by lWethScale unless Raw (dust)
+	Raw bool `json:"raw,omitempty"`
 }
 
 type lHist struct {
 	ID  int   `json:"id"`
 	Ops []lOp `json:"ops"`
+	Two bool  `json:"two,omitempty"` // market with the second leverage/perpetual-enabled oracle pool (MarketOpts.Extra18)
 }
+
+// lTwo: which generated histories run on the two-pool market
+func lTwo(id int) bool { return id%3 != 0 }
+
+// lMarketOpts: the market a history runs on (also for the drivers that embed lRun: C15 C18 C19)
+func lMarketOpts(h lHist) MarketOpts {
+	o := DefaultMarketOpts()
+	o.Extra18 = h.Two
+	return o
+}
+
+// 1 uatom ($5e-6) is worth 2.5e9 aweth ($2000e-18 each)
+var lWethScale = sdkmath.NewInt(2_500_000_000)
 
 // lScenario: directed histories that a uniform generator reaches too rarely: several leveraged positions of different
 // owners on one pool, time for interest to accrue, a price move that makes SOME of them unhealthy, then a batch
 // close-positions message listing all of them (force-closes and mere settlements interleaved in one tx), by a third party.
 func lScenario(r *Rng, id int) lHist {
-	h := lHist{ID: id}
+	two := lTwo(id)
+	h := lHist{ID: id, Two: two}
 	add := func(o lOp) { h.Ops = append(h.Ops, o) }
+	// two-pool market: extra draws happen ONLY there, so that the one-pool histories of a seed stay what they were
+	pick := func() int {
+		if !two {
+			return 0
+		}
+		return r.Intn(2)
+	}
+	also := func(pct int) bool { return two && r.Chance(pct) }
 	switch (id / 4) % 5 {
 	case 4:
 		// ONLY short positions are open (their custody is base currency), then the pool creator, who holds almost all shares,
 		// leaves with most of the pool in proportion: the exit must be refused once the reserve would fall below the custody
+		q := pick()
 		for j := 0; j < 1+r.Intn(2); j++ {
-			add(lOp{Op: "perp_open", U: 1 + r.Intn(4), Dir: 1, Amt: r.Decade(9, 10).String(), Lev: []string{"2", "3"}[r.Intn(2)]})
+			add(lOp{Op: "perp_open", U: 1 + r.Intn(4), Dir: 1, Amt: r.Decade(9, 10).String(), Lev: []string{"2", "3"}[r.Intn(2)], Q: q})
+		}
+		if also(50) { // a short of the same size class on the OTHER pool: its custody must not count against this pool's reserve
+			add(lOp{Op: "perp_open", U: 1 + r.Intn(4), Dir: 1, Amt: r.Decade(9, 10).String(), Lev: "2", Q: 1 - q})
 		}
 		add(lOp{Op: "blocks", N: 1, DT: 3700})
-		add(lOp{Op: "exit", U: 0, Pool: 0, Dir: 0, Rel: []int{4, 3, 2}[r.Intn(3)]})
+		add(lOp{Op: "exit", U: 0, Pool: 0, Dir: 0, Rel: []int{4, 3, 2}[r.Intn(3)], Q: q})
 		add(lOp{Op: "blocks", N: 1, DT: 5})
-		add(lOp{Op: "exit", U: 0, Pool: 0, Dir: 0, Rel: 4})
+		add(lOp{Op: "exit", U: 0, Pool: 0, Dir: 0, Rel: 4, Q: q})
 		tail := lGenN(r, id, 8+r.Intn(8))
 		h.Ops = append(h.Ops, tail.Ops...)
 		return h
@@ -75,21 +107,26 @@ func lScenario(r *Rng, id int) lHist {
 		u := r.Intn(5)
 		lev := r.Chance(50)
 		n := 9 + r.Intn(5)
+		q := pick()
 		for j := 0; j < n; j++ {
+			qq := q
+			if also(25) { // the same account does the same on the other pool in between (own position / own lock-up list there)
+				qq = 1 - q
+			}
 			if lev {
-				add(lOp{Op: "lev_open", U: u, Amt: r.Decade(6, 8).String(), Lev: []string{"2", "3", "1", "1.5"}[r.Intn(4)], P: "0"}) // leverage 1: a top-up that borrows nothing
+				add(lOp{Op: "lev_open", U: u, Amt: r.Decade(6, 8).String(), Lev: []string{"2", "3", "1", "1.5"}[r.Intn(4)], P: "0", Q: qq}) // leverage 1: a top-up that borrows nothing
 			} else {
-				add(lOp{Op: "join", U: u, Pool: 0, Dir: 1 + r.Intn(2), Amt: r.Decade(6, 9).String()})
+				add(lOp{Op: "join", U: u, Pool: 0, Dir: 1 + r.Intn(2), Amt: r.Decade(6, 9).String(), Q: qq})
 			}
 			if r.Chance(25) {
 				add(lOp{Op: "blocks", N: 1, DT: r.Pick(5, 60, 3700)})
 			}
 			if r.Chance(15) { // an ordinary provider joins and leaves in between
-				add(lOp{Op: "join", U: (u + 1) % 5, Pool: 0, Dir: 0, Amt: r.Decade(5, 8).String()})
+				add(lOp{Op: "join", U: (u + 1) % 5, Pool: 0, Dir: 0, Amt: r.Decade(5, 8).String(), Q: qq})
 			}
 		}
 		add(lOp{Op: "blocks", N: 1, DT: 3700})
-		add(lOp{Op: "exit", U: u, Pool: 0, Dir: 0, Rel: r.Intn(6)})
+		add(lOp{Op: "exit", U: u, Pool: 0, Dir: 0, Rel: r.Intn(6), Q: q})
 		tail := lGenN(r, id, 6+r.Intn(8))
 		h.Ops = append(h.Ops, tail.Ops...)
 		return h
@@ -104,17 +141,37 @@ func lScenario(r *Rng, id int) lHist {
 		if r.Chance(30) {
 			big, small = 1, 0
 		}
-		add(lOp{Op: "perp_open", U: u1, Dir: big, Amt: r.Decade(8, 9).String(), Lev: []string{"2", "3", "5"}[r.Intn(3)]})
-		add(lOp{Op: "perp_open", U: u2, Dir: small, Amt: r.Decade(7, 8).String(), Lev: []string{"2", "3"}[r.Intn(2)]})
+		q := pick()
+		add(lOp{Op: "perp_open", U: u1, Dir: big, Amt: r.Decade(8, 9).String(), Lev: []string{"2", "3", "5"}[r.Intn(3)], Q: q})
+		add(lOp{Op: "perp_open", U: u2, Dir: small, Amt: r.Decade(7, 8).String(), Lev: []string{"2", "3"}[r.Intn(2)], Q: q})
+		if two { // the same two owners hold the MIRRORED positions on the other pool: funding runs the other way there
+			add(lOp{Op: "perp_open", U: u1, Dir: small, Amt: r.Decade(7, 8).String(), Lev: "2", Q: 1 - q})
+			add(lOp{Op: "perp_open", U: u2, Dir: big, Amt: r.Decade(8, 9).String(), Lev: "3", Q: 1 - q})
+		}
 		add(lOp{Op: "blocks", N: r.Pick(2, 3, 5), DT: r.Pick(60, 3700, 86400)})
+		longGap := also(40)
+		if longGap { // the positions are left alone for 150-250 days: the funding due outgrows the paying side's custody
+			add(lOp{Op: "blocks", N: 1, DT: r.Pick(12960000, 17280000, 21600000)})
+		}
 		// a third party asks for the liquidation of every position while they are healthy: interest and funding are settled, nothing closes
-		add(lOp{Op: "perp_close_positions", U: (u1 + 2) % 5, Idx: r.Intn(4), Dir: 0, N: 8, Rel: r.Intn(2)})
+		cpq := lOp{Op: "perp_close_positions", U: (u1 + 2) % 5, Idx: r.Intn(4), Dir: 0, N: 8, Rel: r.Intn(2)}
+		if !longGap {
+			add(cpq)
+		}
 		add(lOp{Op: "blocks", N: 1, DT: 5})
-		add(lOp{Op: "perp_open", U: u1, Dir: big, Amt: r.Decade(7, 9).String(), Lev: []string{"1.5", "2", "3"}[r.Intn(3)]})
+		if longGap { // top-up with plenty of collateral first, so that the merged position is healthy
+			add(lOp{Op: "perp_open", U: u1, Dir: big, Amt: r.Decade(9, 10).String(), Lev: "0", Q: q})
+			add(lOp{Op: "perp_open", U: u2, Dir: small, Amt: r.Decade(9, 10).String(), Lev: "0", Q: q})
+		}
+		add(lOp{Op: "perp_open", U: u1, Dir: big, Amt: r.Decade(7, 9).String(), Lev: []string{"1.5", "2", "3"}[r.Intn(3)], Q: q})
 		add(lOp{Op: "blocks", N: 1, DT: r.Pick(5, 3700)})
-		add(lOp{Op: "perp_open", U: u1, Dir: big, Amt: r.Decade(6, 8).String(), Lev: "0"})
+		add(lOp{Op: "perp_open", U: u1, Dir: big, Amt: r.Decade(6, 8).String(), Lev: "0", Q: q})
 		if r.Chance(50) {
-			add(lOp{Op: "perp_open", U: u2, Dir: small, Amt: r.Decade(6, 8).String(), Lev: "0"})
+			add(lOp{Op: "perp_open", U: u2, Dir: small, Amt: r.Decade(6, 8).String(), Lev: "0", Q: q})
+		}
+		if also(60) { // consolidation + top-up on the other pool in the same block
+			add(lOp{Op: "perp_open", U: u2, Dir: big, Amt: r.Decade(6, 8).String(), Lev: "2", Q: 1 - q})
+			add(lOp{Op: "perp_open", U: u2, Dir: big, Amt: r.Decade(6, 8).String(), Lev: "0", Q: 1 - q})
 		}
 		add(lOp{Op: "blocks", N: 1, DT: 5})
 		tail := lGenN(r, id, 8+r.Intn(8))
@@ -125,19 +182,28 @@ func lScenario(r *Rng, id int) lHist {
 	k := 2 + r.Intn(3)
 	short := r.Chance(30)
 	for i := 0; i < k; i++ {
-		if perp {
-			d := 0
-			if short {
-				d = 1
-			} else if r.Chance(30) {
-				d = 2
+		q := pick()
+		for rep := 0; rep < 2; rep++ {
+			if perp {
+				d := 0
+				if short {
+					d = 1
+				} else if r.Chance(30) {
+					d = 2
+				}
+				add(lOp{Op: "perp_open", U: i % 5, Dir: d, Amt: r.Decade(6, 10).String(), Lev: []string{"1.5", "2", "3", "5", "8", "10"}[r.Intn(6)], Rel: r.Intn(4), Q: q})
+			} else {
+				add(lOp{Op: "lev_open", U: i % 5, Amt: r.Decade(5, 10).String(), Lev: []string{"2", "3", "5", "9.5", "10"}[r.Intn(5)], P: []string{"0", "0", "0.5"}[r.Intn(3)], Q: q})
 			}
-			add(lOp{Op: "perp_open", U: i % 5, Dir: d, Amt: r.Decade(6, 10).String(), Lev: []string{"1.5", "2", "3", "5", "8", "10"}[r.Intn(6)], Rel: r.Intn(4)})
-		} else {
-			add(lOp{Op: "lev_open", U: i % 5, Amt: r.Decade(5, 10).String(), Lev: []string{"2", "3", "5", "9.5", "10"}[r.Intn(5)], P: []string{"0", "0", "0.5"}[r.Intn(3)]})
+			// two-pool market: half of the owners hold a position on EACH pool, so that a batch lists both pools' positions
+			// of one owner next to each other
+			if !also(50) {
+				break
+			}
+			q = 1 - q
 		}
 		if r.Chance(30) {
-			add(lOp{Op: "swap_in", U: r.Intn(5), V: r.Intn(5), Pool: 0, Dir: r.Intn(2), Amt: r.Decade(5, 10).String(), Rel: r.Intn(4)})
+			add(lOp{Op: "swap_in", U: r.Intn(5), V: r.Intn(5), Pool: 0, Dir: r.Intn(2), Amt: r.Decade(5, 10).String(), Rel: r.Intn(4), Q: pick()})
 		}
 	}
 	add(lOp{Op: "blocks", N: r.Pick(1, 2), DT: r.Pick(3700, 86400, 86400, 604800)})
@@ -153,6 +219,7 @@ func lScenario(r *Rng, id int) lHist {
 		idx := r.Intn(4)
 		if r.Chance(70) {
 			// the position that will head the batch is steered to just below (mostly) / just above its liquidation threshold
+			// (the price that is moved is the one of that position's pool)
 			sd := 1
 			if perp {
 				sd = 0
@@ -162,8 +229,14 @@ func lScenario(r *Rng, id int) lHist {
 				rel = 1
 			}
 			add(lOp{Op: "steer", Dir: sd, Idx: idx, Rel: rel})
+			if also(50) { // and the other pool's asset moves by a fixed factor: some of ITS positions in the batch are due too
+				add(lOp{Op: "price", P: f, Q: 1})
+			}
 		} else {
 			add(lOp{Op: "price", P: f})
+			if two {
+				add(lOp{Op: "price", P: f, Q: 1})
+			}
 		}
 		add(lOp{Op: cp, U: r.Intn(5), Idx: idx, Dir: 0, N: 8, Rel: r.Intn(2)})
 		add(lOp{Op: "blocks", N: 1, DT: r.Pick(5, 3700)})
@@ -185,49 +258,75 @@ func lGen(r *Rng, id int) lHist {
 }
 
 func lGenN(r *Rng, id int, n int) lHist {
-	h := lHist{ID: id}
+	two := lTwo(id)
+	h := lHist{ID: id, Two: two}
+	if two && n > 36 {
+		n = 36 + (n-36)/3 // two-pool worlds cost more per step (fixture, observers): shorter histories, same count
+	}
 	amt := func() string {
 		// per-decade amounts from dust to more than the reserves
 		return r.Decade(0, 12).String()
+	}
+	// two-pool market: which oracle pool the op names, and whether an 18-decimals amount is dust (taken as written)
+	// instead of scaled; drawn ONLY in two-pool histories so that the one-pool histories of a seed stay what they were
+	q := func() int {
+		if !two {
+			return 0
+		}
+		return r.Intn(2)
+	}
+	raw := func() bool { return two && r.Chance(12) }
+	hops := 5
+	if two {
+		hops = 10
 	}
 	for k := 0; k < n; k++ {
 		x := r.Intn(100)
 		u := r.Intn(5)
 		switch {
 		case x < 14:
-			h.Ops = append(h.Ops, lOp{Op: "swap_in", U: u, V: r.Intn(5), Pool: r.Intn(2), Dir: r.Intn(2), Amt: amt(), Rel: r.Intn(4)})
+			h.Ops = append(h.Ops, lOp{Op: "swap_in", U: u, V: r.Intn(5), Pool: r.Intn(2), Dir: r.Intn(2), Amt: amt(), Rel: r.Intn(4), Q: q(), Raw: raw()})
 		case x < 22:
-			h.Ops = append(h.Ops, lOp{Op: "swap_out", U: u, V: r.Intn(5), Pool: r.Intn(2), Dir: r.Intn(2), Amt: amt(), Rel: r.Intn(4)})
+			h.Ops = append(h.Ops, lOp{Op: "swap_out", U: u, V: r.Intn(5), Pool: r.Intn(2), Dir: r.Intn(2), Amt: amt(), Rel: r.Intn(4), Q: q(), Raw: raw()})
 		case x < 25:
-			h.Ops = append(h.Ops, lOp{Op: "swap_hop", U: u, Dir: r.Intn(5), Amt: amt()})
+			h.Ops = append(h.Ops, lOp{Op: "swap_hop", U: u, Dir: r.Intn(hops), Amt: amt(), Raw: raw()})
 		case x < 33:
-			h.Ops = append(h.Ops, lOp{Op: "join", U: u, Pool: r.Intn(2), Dir: r.Intn(3), Amt: amt()})
+			h.Ops = append(h.Ops, lOp{Op: "join", U: u, Pool: r.Intn(2), Dir: r.Intn(3), Amt: amt(), Q: q(), Raw: raw()})
 		case x < 40:
-			h.Ops = append(h.Ops, lOp{Op: "exit", U: u, Pool: r.Intn(2), Dir: r.Intn(3), Rel: r.Intn(6)})
+			h.Ops = append(h.Ops, lOp{Op: "exit", U: u, Pool: r.Intn(2), Dir: r.Intn(3), Rel: r.Intn(6), Q: q()})
 		case x < 45:
 			h.Ops = append(h.Ops, lOp{Op: "bond", U: u, Amt: amt()})
 		case x < 49:
 			h.Ops = append(h.Ops, lOp{Op: "unbond", U: u, Rel: r.Intn(6)})
 		case x < 57:
-			h.Ops = append(h.Ops, lOp{Op: "lev_open", U: u, Amt: r.Decade(3, 11).String(), Lev: []string{"1.5", "2", "3", "5", "9.5", "10", "1", "1.000001"}[r.Intn(8)], P: []string{"0", "0", "0.5", "2"}[r.Intn(4)]})
+			h.Ops = append(h.Ops, lOp{Op: "lev_open", U: u, Amt: r.Decade(3, 11).String(), Lev: []string{"1.5", "2", "3", "5", "9.5", "10", "1", "1.000001"}[r.Intn(8)], P: []string{"0", "0", "0.5", "2"}[r.Intn(4)], Q: q()})
 		case x < 62:
 			h.Ops = append(h.Ops, lOp{Op: "lev_close", U: u, Idx: r.Intn(4), Rel: r.Intn(6)})
 		case x < 66:
 			h.Ops = append(h.Ops, lOp{Op: "lev_close_positions", U: u, Idx: r.Intn(4), Dir: r.Intn(2), N: r.Pick(1, 1, 2, 3, 8), Rel: r.Intn(2)})
 		case x < 74:
-			h.Ops = append(h.Ops, lOp{Op: "perp_open", U: u, Dir: r.Intn(4), Amt: r.Decade(3, 10).String(), Lev: []string{"1.2", "2", "3", "5", "10", "0"}[r.Intn(6)], Rel: r.Intn(4)})
+			h.Ops = append(h.Ops, lOp{Op: "perp_open", U: u, Dir: r.Intn(4), Amt: r.Decade(3, 10).String(), Lev: []string{"1.2", "2", "3", "5", "10", "0"}[r.Intn(6)], Rel: r.Intn(4), Q: q(), Raw: raw()})
 		case x < 79:
 			h.Ops = append(h.Ops, lOp{Op: "perp_close", U: u, Idx: r.Intn(4), Rel: r.Intn(6)})
 		case x < 83:
 			h.Ops = append(h.Ops, lOp{Op: "perp_close_positions", U: u, Idx: r.Intn(4), Dir: r.Intn(3), N: r.Pick(1, 1, 2, 3, 8), Rel: r.Intn(2)})
 		case x < 88:
-			h.Ops = append(h.Ops, lOp{Op: "price", P: []string{"0.5", "0.8", "0.95", "1.05", "1.25", "2"}[r.Intn(6)]})
+			h.Ops = append(h.Ops, lOp{Op: "price", P: []string{"0.5", "0.8", "0.95", "1.05", "1.25", "2"}[r.Intn(6)], Q: q()})
 		case x < 89:
-			h.Ops = append(h.Ops, lOp{Op: "donate", U: u, Pool: r.Intn(2), Dir: r.Intn(3), Amt: amt()})
+			h.Ops = append(h.Ops, lOp{Op: "donate", U: u, Pool: r.Intn(2), Dir: r.Intn(3), Amt: amt(), Q: q(), Raw: raw()})
 		case x < 90:
-			h.Ops = append(h.Ops, lOp{Op: "unstake_lp", U: r.Intn(2) * u, Pool: r.Intn(2), Rel: r.Intn(6)}) // user 0 is the pool creator and holds shares
+			h.Ops = append(h.Ops, lOp{Op: "unstake_lp", U: r.Intn(2) * u, Pool: r.Intn(2), Rel: r.Intn(6), Q: q()}) // user 0 is the pool creator and holds shares
 		default:
-			h.Ops = append(h.Ops, lOp{Op: "blocks", N: r.Pick(1, 1, 2, 3), DT: r.Pick(5, 5, 60, 3700, 86400)})
+			b := lOp{Op: "blocks", N: r.Pick(1, 1, 2, 3), DT: r.Pick(5, 5, 60, 3700, 86400)}
+			h.Ops = append(h.Ops, b)
+			if x >= 97 {
+				// the price feeder reports the external exchange depth of the oracle pool(s): MsgFeedMultipleExternalLiquidity rewrites
+				// the pool record (ExternalLiquidityRatio) without any transfer. Appended AFTER the op the draw stood for and built from
+				// the numbers already drawn, and as a PAIR (the driver closes a block after every op with an odd index; feed_ext is
+				// exempt), so that every other op of every stored seed, and the block it lands in, stays what it was.
+				h.Ops = append(h.Ops, lOp{Op: "feed_ext", U: u, Dir: int(b.N), Rel: int(b.DT % 7), Q: int(b.N) % 2},
+					lOp{Op: "feed_ext", U: u, Dir: int(b.N) + 1, Rel: int(b.DT%7) + 1, Q: (int(b.N) + 1) % 2})
+			}
 		}
 	}
 	return h
@@ -264,6 +363,15 @@ type lRun struct {
 	c09   *c09Tracer
 	c06   *c06Tracer
 	c09b  *c09bTracer // C09 custody backing (harness/c09b_trace_test.go)
+	c09b2 *c09bTracer // the same for the second perpetual pool (two-pool markets)
+}
+
+// count adds to a counter of the run's report (evidence "extra")
+func (x *lRun) count(k string, n int) {
+	x.col.mu.Lock()
+	defer x.col.mu.Unlock()
+	old, _ := x.col.rep.Extra[k].(int)
+	x.col.rep.Extra[k] = old + n
 }
 
 func (x *lRun) fail(sig, detail string) {
@@ -287,6 +395,83 @@ func (x *lRun) poolDenoms(p int) (string, string) {
 	return USDC, ELYS
 }
 
+// ---- two-pool market: the op's Q selects the oracle pool (0 when the market has no second one)
+
+func (x *lRun) qOf(op lOp) int {
+	if op.Q == 1 && x.m.OraclePool2 != 0 {
+		return 1
+	}
+	return 0
+}
+
+func (x *lRun) oraclePool(q int) uint64 {
+	if q == 1 {
+		return x.m.OraclePool2
+	}
+	return x.m.OraclePool
+}
+
+// trading asset of an oracle pool
+func (x *lRun) trade(q int) string {
+	if q == 1 {
+		return WETH
+	}
+	return ATOM
+}
+
+func (x *lRun) tradeOfPool(id uint64) string {
+	if x.m.OraclePool2 != 0 && id == x.m.OraclePool2 {
+		return WETH
+	}
+	return ATOM
+}
+
+// pool id / denoms named by an op (Pool 0: the oracle pool selected by Q, Pool 1: the constant-product pool)
+func (x *lRun) poolOf(op lOp) uint64 {
+	if op.Pool == 0 {
+		return x.oraclePool(x.qOf(op))
+	}
+	return x.m.CPPool
+}
+
+func (x *lRun) denomsOf(op lOp) (string, string) {
+	if op.Pool == 0 {
+		return USDC, x.trade(x.qOf(op))
+	}
+	return USDC, ELYS
+}
+
+// amtOf: the op's absolute amount as an amount of denom (aweth amounts are scaled to its 18 decimals and price unless Raw)
+func (x *lRun) amtOf(op lOp, denom string) sdkmath.Int {
+	v := bigOf(op.Amt)
+	if denom == WETH && !op.Raw {
+		v = v.Mul(lWethScale)
+	}
+	return v
+}
+
+// tracked external denoms (supply must never change)
+func (x *lRun) externalDenoms() []string {
+	if x.m.OraclePool2 != 0 {
+		return []string{USDC, ATOM, WETH}
+	}
+	return []string{USDC, ATOM}
+}
+
+// movePrice: the "price" op multiplies the market price of the selected pool's trading asset (clamped to 1/100 .. 100 times
+// the fixture price, back to the fixture price outside)
+func (x *lRun) movePrice(op lOp) {
+	d, lo, hi, reset := ATOM, "0.05", "500", "5"
+	if x.qOf(op) == 1 {
+		d, lo, hi, reset = WETH, "20", "200000", "2000"
+	}
+	np := x.m.Prices[d].Mul(dec(op.P))
+	if np.LT(dec(lo)) || np.GT(dec(hi)) {
+		np = dec(reset)
+	}
+	x.m.SetPrice(d, np)
+}
+
 func bigOf(s string) sdkmath.Int {
 	v, ok := sdkmath.NewIntFromString(s)
 	if !ok {
@@ -304,7 +489,7 @@ func (x *lRun) exec(op lOp) (res TxResult, amt *big.Int) {
 	u := m.User(op.U)
 	switch op.Op {
 	case "swap_in", "swap_out":
-		a, b := x.poolDenoms(op.Pool)
+		a, b := x.denomsOf(op)
 		if op.Dir == 1 {
 			a, b = b, a
 		}
@@ -315,18 +500,46 @@ func (x *lRun) exec(op lOp) (res TxResult, amt *big.Int) {
 		case 2: // recipient = the lending vault's module account (keeper-level sends are not blocked)
 			rcpt = authtypes.NewModuleAddress(sstypes.ModuleName).String()
 		}
-		v := bigOf(op.Amt)
-		amt = v.BigInt()
 		if op.Op == "swap_in" {
-			return w.Deliver(&ammtypes.MsgSwapExactAmountIn{Sender: u, Routes: []ammtypes.SwapAmountInRoute{{PoolId: x.poolID(op.Pool), TokenOutDenom: b}},
+			v := x.amtOf(op, a)
+			amt = v.BigInt()
+			return w.Deliver(&ammtypes.MsgSwapExactAmountIn{Sender: u, Routes: []ammtypes.SwapAmountInRoute{{PoolId: x.poolOf(op), TokenOutDenom: b}},
 				TokenIn: sdk.NewCoin(a, v), TokenOutMinAmount: I(1), Recipient: rcpt}), amt
 		}
-		return w.Deliver(&ammtypes.MsgSwapExactAmountOut{Sender: u, Routes: []ammtypes.SwapAmountOutRoute{{PoolId: x.poolID(op.Pool), TokenInDenom: a}},
-			TokenOut: sdk.NewCoin(b, v), TokenInMaxAmount: v.MulRaw(1000).AddRaw(1000), Recipient: rcpt}), amt
+		v := x.amtOf(op, b)
+		amt = v.BigInt()
+		maxIn := v.MulRaw(1000).AddRaw(1000)
+		if a == WETH { // 6-decimals amount out, 18-decimals amount in
+			maxIn = v.Mul(sdkmath.NewInt(10_000_000_000_000)).AddRaw(1000)
+		}
+		return w.Deliver(&ammtypes.MsgSwapExactAmountOut{Sender: u, Routes: []ammtypes.SwapAmountOutRoute{{PoolId: x.poolOf(op), TokenInDenom: a}},
+			TokenOut: sdk.NewCoin(b, v), TokenInMaxAmount: maxIn, Recipient: rcpt}), amt
 	case "swap_hop":
 		v := bigOf(op.Amt)
 		amt = v.BigInt()
-		switch op.Dir {
+		if op.Dir >= 5 && m.OraclePool2 != 0 { // routes over BOTH oracle pools (they meet in uusdc)
+			vw := x.amtOf(op, WETH)
+			big13 := sdkmath.NewInt(10_000_000_000_000)
+			switch op.Dir {
+			case 5: // ATOM -> USDC (pool 1) -> WETH (pool 2)
+				return w.Deliver(&ammtypes.MsgSwapExactAmountIn{Sender: u, Routes: []ammtypes.SwapAmountInRoute{{PoolId: m.OraclePool, TokenOutDenom: USDC}, {PoolId: m.OraclePool2, TokenOutDenom: WETH}},
+					TokenIn: sdk.NewCoin(ATOM, v), TokenOutMinAmount: I(1), Recipient: u}), amt
+			case 6: // WETH -> USDC (pool 2) -> ATOM (pool 1)
+				return w.Deliver(&ammtypes.MsgSwapExactAmountIn{Sender: u, Routes: []ammtypes.SwapAmountInRoute{{PoolId: m.OraclePool2, TokenOutDenom: USDC}, {PoolId: m.OraclePool, TokenOutDenom: ATOM}},
+					TokenIn: sdk.NewCoin(WETH, vw), TokenOutMinAmount: I(1), Recipient: u}), vw.BigInt()
+			case 7: // exact-out: WETH (pool 2) <- USDC <- ATOM (pool 1)
+				return w.Deliver(&ammtypes.MsgSwapExactAmountOut{Sender: u, Routes: []ammtypes.SwapAmountOutRoute{{PoolId: m.OraclePool, TokenInDenom: ATOM}, {PoolId: m.OraclePool2, TokenInDenom: USDC}},
+					TokenOut: sdk.NewCoin(WETH, vw), TokenInMaxAmount: vw.MulRaw(1000).AddRaw(1000), Recipient: u}), vw.BigInt()
+			case 8: // exact-out: ATOM (pool 1) <- USDC <- WETH (pool 2)
+				return w.Deliver(&ammtypes.MsgSwapExactAmountOut{Sender: u, Routes: []ammtypes.SwapAmountOutRoute{{PoolId: m.OraclePool2, TokenInDenom: WETH}, {PoolId: m.OraclePool, TokenInDenom: USDC}},
+					TokenOut: sdk.NewCoin(ATOM, v), TokenInMaxAmount: v.Mul(big13).AddRaw(1000), Recipient: u}), amt
+			default: // the second pool twice, then the first, then the cp pool: WETH -> USDC -> WETH -> USDC (pool 2) -> ATOM (pool 1) -> USDC (pool 1) -> ELYS (cp)
+				return w.Deliver(&ammtypes.MsgSwapExactAmountIn{Sender: u, Routes: []ammtypes.SwapAmountInRoute{{PoolId: m.OraclePool2, TokenOutDenom: USDC}, {PoolId: m.OraclePool2, TokenOutDenom: WETH},
+					{PoolId: m.OraclePool2, TokenOutDenom: USDC}, {PoolId: m.OraclePool, TokenOutDenom: ATOM}, {PoolId: m.OraclePool, TokenOutDenom: USDC}, {PoolId: m.CPPool, TokenOutDenom: ELYS}},
+					TokenIn: sdk.NewCoin(WETH, vw), TokenOutMinAmount: I(1), Recipient: u}), vw.BigInt()
+			}
+		}
+		switch op.Dir % 5 {
 		case 2: // a route that visits the SAME pool twice: USDC -> ELYS -> USDC through the cp pool
 			return w.Deliver(&ammtypes.MsgSwapExactAmountIn{Sender: u, Routes: []ammtypes.SwapAmountInRoute{{PoolId: m.CPPool, TokenOutDenom: ELYS}, {PoolId: m.CPPool, TokenOutDenom: USDC}},
 				TokenIn: sdk.NewCoin(USDC, v), TokenOutMinAmount: I(1), Recipient: u}), amt
@@ -338,17 +551,17 @@ func (x *lRun) exec(op lOp) (res TxResult, amt *big.Int) {
 			return w.Deliver(&ammtypes.MsgSwapExactAmountOut{Sender: u, Routes: []ammtypes.SwapAmountOutRoute{{PoolId: m.CPPool, TokenInDenom: ELYS}, {PoolId: m.CPPool, TokenInDenom: USDC}},
 				TokenOut: sdk.NewCoin(ELYS, v), TokenInMaxAmount: v.MulRaw(1000).AddRaw(1000), Recipient: u}), amt
 		}
-		if op.Dir == 0 { // ELYS -> USDC (cp) -> ATOM (oracle)
+		if op.Dir%5 == 0 { // ELYS -> USDC (cp) -> ATOM (oracle)
 			return w.Deliver(&ammtypes.MsgSwapExactAmountIn{Sender: u, Routes: []ammtypes.SwapAmountInRoute{{PoolId: m.CPPool, TokenOutDenom: USDC}, {PoolId: m.OraclePool, TokenOutDenom: ATOM}},
 				TokenIn: sdk.NewCoin(ELYS, v), TokenOutMinAmount: I(1), Recipient: u}), amt
 		}
 		return w.Deliver(&ammtypes.MsgSwapExactAmountOut{Sender: u, Routes: []ammtypes.SwapAmountOutRoute{{PoolId: m.OraclePool, TokenInDenom: ATOM}, {PoolId: m.CPPool, TokenInDenom: USDC}},
 			TokenOut: sdk.NewCoin(ELYS, v), TokenInMaxAmount: v.MulRaw(1000).AddRaw(1000), Recipient: u}), amt
 	case "join":
-		a, b := x.poolDenoms(op.Pool)
+		a, b := x.denomsOf(op)
 		v := bigOf(op.Amt)
 		amt = v.BigInt()
-		pool, _ := w.App.AmmKeeper.GetPool(w.QCtx(), x.poolID(op.Pool))
+		pool, _ := w.App.AmmKeeper.GetPool(w.QCtx(), x.poolOf(op))
 		switch op.Dir {
 		case 0: // all assets, shares computed from the deposit of asset a
 			ra := pool.PoolAssets[0].Token.Amount
@@ -356,25 +569,31 @@ func (x *lRun) exec(op lOp) (res TxResult, amt *big.Int) {
 				ra = pool.PoolAssets[1].Token.Amount
 			}
 			shares := pool.TotalShares.Amount.Mul(v).Quo(ra.AddRaw(1))
-			return w.Deliver(&ammtypes.MsgJoinPool{Sender: u, PoolId: pool.PoolId, MaxAmountsIn: sdk.NewCoins(sdk.NewCoin(a, v.MulRaw(2).AddRaw(10)), sdk.NewCoin(b, v.MulRaw(20).AddRaw(10))), ShareAmountOut: shares}), amt
+			maxB := v.MulRaw(20).AddRaw(10)
+			if b == WETH { // 18 decimals against 6: the same hundredfold head-room in value as for uatom
+				maxB = v.Mul(lWethScale).MulRaw(20).AddRaw(10)
+			}
+			return w.Deliver(&ammtypes.MsgJoinPool{Sender: u, PoolId: pool.PoolId, MaxAmountsIn: sdk.NewCoins(sdk.NewCoin(a, v.MulRaw(2).AddRaw(10)), sdk.NewCoin(b, maxB)), ShareAmountOut: shares}), amt
 		case 1: // single asset a
 			return w.Deliver(&ammtypes.MsgJoinPool{Sender: u, PoolId: pool.PoolId, MaxAmountsIn: sdk.NewCoins(sdk.NewCoin(a, v)), ShareAmountOut: I(1)}), amt
 		default: // single asset b
+			v = x.amtOf(op, b)
+			amt = v.BigInt()
 			return w.Deliver(&ammtypes.MsgJoinPool{Sender: u, PoolId: pool.PoolId, MaxAmountsIn: sdk.NewCoins(sdk.NewCoin(b, v)), ShareAmountOut: I(1)}), amt
 		}
 	case "exit":
-		pool, _ := w.App.AmmKeeper.GetPool(w.QCtx(), x.poolID(op.Pool))
+		pool, _ := w.App.AmmKeeper.GetPool(w.QCtx(), x.poolOf(op))
 		c := w.App.CommitmentKeeper.GetCommitments(w.QCtx(), m.Users[op.U%len(m.Users)])
 		have := c.GetCommittedAmountForDenom(pool.TotalShares.Denom)
 		v := relOf(op.Rel, have)
 		amt = v.BigInt()
 		out := ""
 		if op.Pool == 0 && op.Dir > 0 {
-			out = []string{USDC, ATOM}[op.Dir-1]
+			out = []string{USDC, x.trade(x.qOf(op))}[op.Dir-1]
 		}
 		return w.Deliver(&ammtypes.MsgExitPool{Sender: u, PoolId: pool.PoolId, MinAmountsOut: sdk.Coins{}, ShareAmountIn: v, TokenOutDenom: out}), amt
 	case "unstake_lp": // MsgUnstake naming a pool share denom (only uelys / ueden / uedenb may be unstaked this way)
-		pool, _ := w.App.AmmKeeper.GetPool(w.QCtx(), x.poolID(op.Pool))
+		pool, _ := w.App.AmmKeeper.GetPool(w.QCtx(), x.poolOf(op))
 		c := w.App.CommitmentKeeper.GetCommitments(w.QCtx(), m.Users[op.U%len(m.Users)])
 		v := relOf(op.Rel, c.GetCommittedAmountForDenom(pool.TotalShares.Denom))
 		amt = v.BigInt()
@@ -392,7 +611,7 @@ func (x *lRun) exec(op lOp) (res TxResult, amt *big.Int) {
 	case "lev_open":
 		v := bigOf(op.Amt)
 		amt = v.BigInt()
-		return w.Deliver(&levtypes.MsgOpen{Creator: u, CollateralAsset: USDC, CollateralAmount: v, AmmPoolId: m.OraclePool, Leverage: dec(op.Lev), StopLossPrice: dec(op.P)}), amt
+		return w.Deliver(&levtypes.MsgOpen{Creator: u, CollateralAsset: USDC, CollateralAmount: v, AmmPoolId: x.oraclePool(x.qOf(op)), Leverage: dec(op.Lev), StopLossPrice: dec(op.P)}), amt
 	case "lev_close":
 		ps := w.App.LeveragelpKeeper.GetAllPositions(w.QCtx())
 		if len(ps) == 0 {
@@ -407,28 +626,43 @@ func (x *lRun) exec(op lOp) (res TxResult, amt *big.Int) {
 		amt = v.BigInt()
 		return w.Deliver(&levtypes.MsgClose{Creator: creator, Id: p.Id, LpAmount: v}), amt
 	case "perp_open":
-		v := bigOf(op.Amt)
-		amt = v.BigInt()
+		q := x.qOf(op)
+		trade := x.trade(q)
+		// take-profit / stop-loss triggers: 5x, 0.2x / 0.8x, 1.3x of the fixture price of the pool's trading asset
+		trig := [4]string{"25", "1", "4", "6.5"}
+		if q == 1 {
+			trig = [4]string{"10000", "400", "1600", "2600"}
+		}
 		pos := perptypes.Position_LONG
 		coll := USDC
-		tp := "25"
+		tp := trig[0]
 		if op.Dir%2 == 1 {
 			pos = perptypes.Position_SHORT
-			tp = "1"
+			tp = trig[1]
 		}
 		if op.Dir >= 2 && pos == perptypes.Position_LONG {
-			coll = ATOM
+			coll = trade
 		}
 		sl := "0"
 		if op.Rel == 1 {
 			if pos == perptypes.Position_LONG {
-				sl = "4"
+				sl = trig[2]
 			} else {
-				sl = "6.5"
+				sl = trig[3]
 			}
 		}
-		return w.Deliver(&perptypes.MsgOpen{Creator: u, Position: pos, Leverage: dec(op.Lev), TradingAsset: ATOM, Collateral: sdk.NewCoin(coll, v),
-			TakeProfitPrice: dec(tp), StopLossPrice: dec(sl), PoolId: m.OraclePool}), amt
+		tpd := dec(tp)
+		if op.Rel == 2 { // a take-profit price one ordinary price move away: 1.2x (long) / 0.8x (short) of the market price now
+			f := "1.2"
+			if pos == perptypes.Position_SHORT {
+				f = "0.8"
+			}
+			tpd = m.Prices[trade].Mul(dec(f))
+		}
+		v := x.amtOf(op, coll)
+		amt = v.BigInt()
+		return w.Deliver(&perptypes.MsgOpen{Creator: u, Position: pos, Leverage: dec(op.Lev), TradingAsset: trade, Collateral: sdk.NewCoin(coll, v),
+			TakeProfitPrice: tpd, StopLossPrice: dec(sl), PoolId: x.oraclePool(q)}), amt
 	case "perp_close":
 		ms := w.App.PerpetualKeeper.GetAllMTPs(w.QCtx())
 		if len(ms) == 0 {
@@ -442,6 +676,31 @@ func (x *lRun) exec(op lOp) (res TxResult, amt *big.Int) {
 		v := relOf(op.Rel, p.Custody)
 		amt = v.BigInt()
 		return w.Deliver(&perptypes.MsgClose{Creator: creator, Id: p.Id, Amount: v}), amt
+	case "feed_ext": // amm MsgFeedMultipleExternalLiquidity from the (fixture) price feeder; Dir 3: from an account that is no feeder
+		feeder := m.Provider
+		sender := feeder.String()
+		if op.Dir == 3 {
+			sender = u
+		} else if _, found := w.App.OracleKeeper.GetPriceFeeder(w.QCtx(), feeder); !found {
+			// the first report of a history: governance registers the fixture's provider as a price feeder (this step IS that tx)
+			return w.Deliver(&oracletypes.MsgAddPriceFeeders{Authority: w.Gov, Feeders: []string{feeder.String()}}), nil
+		}
+		depth := []string{"0.02", "0.05", "0.5", "0.001", "1", "0.9", "0.0001"}[op.Rel%7]
+		one := func(q int) ammtypes.ExternalLiquidity {
+			pool, _ := w.App.AmmKeeper.GetPool(w.QCtx(), x.oraclePool(q))
+			var ds []ammtypes.AssetAmountDepth
+			for i, a := range pool.PoolAssets { // external venue: 3x / 0.5x the pool's own balance
+				f := []int64{6, 1}[i%2]
+				ds = append(ds, ammtypes.AssetAmountDepth{Asset: m.Display[a.Token.Denom], Amount: a.Token.Amount.MulRaw(f).QuoRaw(2).ToLegacyDec(), Depth: dec(depth)})
+			}
+			return ammtypes.ExternalLiquidity{PoolId: pool.PoolId, AmountDepthInfo: ds}
+		}
+		q := x.qOf(op)
+		ls := []ammtypes.ExternalLiquidity{one(q)}
+		if m.OraclePool2 != 0 && op.Dir >= 2 { // both oracle pools in one message
+			ls = append(ls, one(1-q))
+		}
+		return w.Deliver(&ammtypes.MsgFeedMultipleExternalLiquidity{Sender: sender, Liquidity: ls}), nil
 	case "steer": // also reachable through exec for drivers that embed lRun (C15 C18 C19)
 		x.steer(op)
 		return TxResult{}, nil
@@ -451,11 +710,11 @@ func (x *lRun) exec(op lOp) (res TxResult, amt *big.Int) {
 		r, v := c09bExitTo(x, op)
 		return r, v.BigInt()
 	case "donate":
-		v := bigOf(op.Amt)
-		amt = v.BigInt()
-		pool, _ := w.App.AmmKeeper.GetPool(w.QCtx(), x.poolID(op.Pool))
-		a, b := x.poolDenoms(op.Pool)
+		pool, _ := w.App.AmmKeeper.GetPool(w.QCtx(), x.poolOf(op))
+		a, b := x.denomsOf(op)
 		d := []string{a, b, ELYS}[op.Dir]
+		v := x.amtOf(op, d)
+		amt = v.BigInt()
 		res = w.Deliver(&banktypes.MsgSend{FromAddress: u, ToAddress: pool.Address, Amount: sdk.NewCoins(sdk.NewCoin(d, v))})
 		if res.OK() {
 			k := pool.Address + "/" + d
@@ -471,6 +730,31 @@ func (x *lRun) exec(op lOp) (res TxResult, amt *big.Int) {
 }
 
 // ---------------- third-party close requests (C10) ----------------
+
+// lIndependentLevHealth: leveraged-LP health from first principles (no call into leveragelp's own health code): what the position's committed
+// shares would pay out in the base currency (amm ExitPoolEst) divided by Borrowed + InterestStacked - InterestPaid of its stablestake debt
+// record with interest brought up to date. ok=false when it cannot be evaluated (estimation error / panic on a degenerate pool).
+func lIndependentLevHealth(w *World, qc sdk.Context, p levtypes.Position) (h sdkmath.LegacyDec, ok bool) {
+	defer func() {
+		if r := recover(); r != nil {
+			ok = false
+		}
+	}()
+	d := w.App.StablestakeKeeper.UpdateInterestAndGetDebt(qc, p.GetPositionAddress())
+	owed := d.Borrowed.Add(d.InterestStacked).Sub(d.InterestPaid)
+	if owed.IsZero() {
+		return sdkmath.LegacyMaxSortableDec, true
+	}
+	shares := sdkmath.ZeroInt()
+	for _, ct := range w.App.CommitmentKeeper.GetCommitments(qc, p.GetPositionAddress()).CommittedTokens {
+		shares = shares.Add(ct.Amount)
+	}
+	coins, _, err := w.App.AmmKeeper.ExitPoolEst(qc, p.AmmPoolId, shares, USDC)
+	if err != nil {
+		return h, false
+	}
+	return coins.AmountOf(USDC).ToLegacyDec().Quo(owed.ToLegacyDec()), true
+}
 
 type posSnap struct {
 	found      bool
@@ -492,6 +776,15 @@ type posSnap struct {
 // Dir 0: perpetual MTP number Idx, Dir 1: leveragelp position number Idx.
 func (x *lRun) steer(op lOp) {
 	w, m := x.w, x.m
+	// the price that is moved is the one of the chosen position's pool
+	asset := ATOM
+	if op.Dir == 0 {
+		if ms := w.App.PerpetualKeeper.GetAllMTPs(w.QCtx()); len(ms) > 0 {
+			asset = x.tradeOfPool(ms[op.Idx%len(ms)].AmmPoolId)
+		}
+	} else if ps := w.App.LeveragelpKeeper.GetAllPositions(w.QCtx()); len(ps) > 0 {
+		asset = x.tradeOfPool(ps[op.Idx%len(ps)].AmmPoolId)
+	}
 	health := func(price sdkmath.LegacyDec) (h sdkmath.LegacyDec, ok bool) {
 		defer func() {
 			if r := recover(); r != nil {
@@ -499,7 +792,7 @@ func (x *lRun) steer(op lOp) {
 			}
 		}()
 		qc := w.QCtx()
-		w.App.OracleKeeper.SetPrice(qc, oracletypes.Price{Asset: m.Display[ATOM], Price: price, Source: "elys", Provider: m.Provider.String(),
+		w.App.OracleKeeper.SetPrice(qc, oracletypes.Price{Asset: m.Display[asset], Price: price, Source: "elys", Provider: m.Provider.String(),
 			Timestamp: uint64(qc.BlockTime().Unix()), BlockHeight: uint64(qc.BlockHeight())})
 		if op.Dir == 0 {
 			ms := w.App.PerpetualKeeper.GetAllMTPs(qc)
@@ -539,6 +832,9 @@ func (x *lRun) steer(op lOp) {
 		target = sf.Mul(dec("1.0015"))
 	}
 	lo, hi := dec("0.05"), dec("500")
+	if asset == WETH {
+		lo, hi = dec("20"), dec("200000")
+	}
 	hLo, ok1 := health(lo)
 	hHi, ok2 := health(hi)
 	if !ok1 || !ok2 || hLo.Equal(hHi) {
@@ -565,7 +861,7 @@ func (x *lRun) steer(op lOp) {
 	if hl, ok := health(lo); ok && ((op.Rel == 0) != hl.LTE(sf)) {
 		pick = hi
 	}
-	m.SetPrice(ATOM, pick)
+	m.SetPrice(asset, pick)
 }
 
 func (x *lRun) closePositions(op lOp) (res TxResult) {
@@ -594,6 +890,14 @@ func (x *lRun) closePositions(op lOp) (res TxResult) {
 			}()
 			hl, err = w.App.LeveragelpKeeper.GetPositionHealth(qc, p)
 		}()
+		// the same quantity recomputed without the keeper's health function: exit value of ALL shares committed at the position address in the
+		// base currency over what the debt record says is owed (principal + interest ever charged - interest paid)
+		if hi, ok := lIndependentLevHealth(w, qc, p); ok && err == nil {
+			if !hi.Equal(hl) {
+				x.fail("C10:lev-health-differs-from-exit-value-over-debt", fmt.Sprintf("position %s/%d: keeper health %s, exit value over debt %s", p.Address, p.Id, hl, hi))
+			}
+			hl = hi // the verdict on a forced close is judged by the independent value
+		}
 		before.health, before.healthErr = hl, err != nil
 		sf := w.App.LeveragelpKeeper.GetParams(qc).SafetyFactor
 		ammPool, _ := w.App.AmmKeeper.GetPool(qc, p.AmmPoolId)
@@ -608,14 +912,19 @@ func (x *lRun) closePositions(op lOp) (res TxResult) {
 		req := &levtypes.PositionRequest{Address: p.Address, Id: p.Id}
 		// batch form: the message carries a LIST; the observed position first (Rel 0) or last (Rel 1), then its neighbours
 		reqs := []*levtypes.PositionRequest{req}
+		mixed := false
 		for j := int64(1); j < op.N && int(j) < len(ps); j++ {
 			q := ps[(op.Idx+int(j))%len(ps)]
+			mixed = mixed || q.AmmPoolId != p.AmmPoolId
 			r2 := &levtypes.PositionRequest{Address: q.Address, Id: q.Id}
 			if op.Rel == 1 {
 				reqs = append([]*levtypes.PositionRequest{r2}, reqs...)
 			} else {
 				reqs = append(reqs, r2)
 			}
+		}
+		if mixed {
+			x.count("lev_batches_listing_both_pools", 1)
 		}
 		msg := &levtypes.MsgClosePositions{Creator: u}
 		if op.Dir == 0 {
@@ -696,14 +1005,19 @@ func (x *lRun) closePositions(op lOp) (res TxResult) {
 	req := perptypes.PositionRequest{Address: p.Address, Id: p.Id}
 	// batch form: the message carries a LIST; the observed position first (Rel 0) or last (Rel 1), then its neighbours
 	reqs := []perptypes.PositionRequest{req}
+	mixed := false
 	for j := int64(1); j < op.N && int(j) < len(ms); j++ {
 		q := ms[(op.Idx+int(j))%len(ms)]
+		mixed = mixed || q.AmmPoolId != p.AmmPoolId
 		r2 := perptypes.PositionRequest{Address: q.Address, Id: q.Id}
 		if op.Rel == 1 {
 			reqs = append([]perptypes.PositionRequest{r2}, reqs...)
 		} else {
 			reqs = append(reqs, r2)
 		}
+	}
+	if mixed {
+		x.count("perp_batches_listing_both_pools", 1)
 	}
 	msg := &perptypes.MsgClosePositions{Creator: u}
 	switch op.Dir {
@@ -901,7 +1215,7 @@ func (x *lRun) invariants(when string) {
 			liab, cust, _, _ := pp.GetPerpetualPoolBalances(d)
 			if a.Token.Amount.LT(cust) {
 				sig := "C09:custody-not-backed"
-				if x.c09b != nil && x.c09b.aborts > 0 {
+				if (x.c09b != nil && x.c09b.aborts > 0) || (x.c09b2 != nil && x.c09b2.aborts > 0) {
 					sig += ":" + c09bAbortSig
 				}
 				x.fail(sig, fmt.Sprintf("%s: pool %d %s reserve %s < total custody %s", when, pp.AmmPoolId, d, a.Token.Amount, cust))
@@ -925,7 +1239,7 @@ func (x *lRun) invariants(when string) {
 		x.fail("C09:open-count", fmt.Sprintf("%s: open MTP counter %d != stored MTPs %d", when, cnt, len(mtps)))
 	}
 	// ---- C15 (supply of externally issued assets)
-	for _, d := range []string{USDC, ATOM} {
+	for _, d := range x.externalDenoms() {
 		s := app.BankKeeper.GetSupply(ctx, d).Amount
 		if !s.Equal(x.supply0[d]) {
 			x.fail("C15:external-supply-changed", fmt.Sprintf("%s: supply of %s changed %s -> %s", when, d, x.supply0[d], s))
@@ -977,16 +1291,18 @@ func (x *lRun) block(dt int64) bool {
 	if x.c09b != nil {
 		x.c09b.step(BankOps(x.w.LastBlockEvents), "block", TxResult{})
 	}
+	if x.c09b2 != nil {
+		x.c09b2.step(BankOps(x.w.LastBlockEvents), "block", TxResult{})
+	}
 	x.invariants(fmt.Sprintf("after block %d", x.w.Height))
 	return true
 }
 
 func runLedgerHistory(t *testing.T, col *Collector, prop string, h lHist) {
 	w := NewWorld(t)
-	o := DefaultMarketOpts()
-	m := NewMarket(w, o)
+	m := NewMarket(w, lMarketOpts(h))
 	x := &lRun{t: t, col: col, prop: prop, w: w, m: m, h: h, donated: map[string]*big.Int{}, supply0: map[string]sdkmath.Int{}}
-	for _, d := range []string{USDC, ATOM} {
+	for _, d := range x.externalDenoms() {
 		x.supply0[d] = w.App.BankKeeper.GetSupply(w.QCtx(), d).Amount
 	}
 	x.vaultDonated = sdkmath.ZeroInt()
@@ -1014,7 +1330,10 @@ func runLedgerHistory(t *testing.T, col *Collector, prop string, h lHist) {
 	}
 	if prop == "C09" {
 		x.c09 = newC09Tracer(x)
-		x.c09b = newC09bTracer(x)
+		x.c09b = newC09bTracer(x, m.OraclePool)
+		if m.OraclePool2 != 0 {
+			x.c09b2 = newC09bTracer(x, m.OraclePool2)
+		}
 	}
 	if prop == "C06" {
 		x.c06 = newC06Tracer(x)
@@ -1042,12 +1361,7 @@ func runLedgerHistory(t *testing.T, col *Collector, prop string, h lHist) {
 			}
 			continue
 		case "price":
-			f := dec(op.P)
-			np := m.Prices[ATOM].Mul(f)
-			if np.LT(dec("0.05")) || np.GT(dec("500")) {
-				np = dec("5")
-			}
-			m.SetPrice(ATOM, np)
+			x.movePrice(op)
 			col.Op("price", "ok", nil)
 			continue
 		}
@@ -1080,7 +1394,13 @@ func runLedgerHistory(t *testing.T, col *Collector, prop string, h lHist) {
 		if x.c09b != nil {
 			x.c09b.step(BankOps(res.Events), op.Op, res)
 		}
+		if x.c09b2 != nil {
+			x.c09b2.step(BankOps(res.Events), op.Op, res)
+		}
 		col.Op(op.Op, res.Kind(), amt)
+		if x.qOf(op) == 1 && res.Kind() != "" { // visibility of the second pool's share of the traffic (evidence: extra)
+			x.count("pool2_"+op.Op+":"+res.Kind(), 1)
+		}
 		if os.Getenv("VERIF_REPLAY") != "" {
 			fmt.Printf("replay step %d %+v -> %s %v %v\n", k, op, res.Kind(), res.Err, res.Panic)
 		}
@@ -1089,7 +1409,7 @@ func runLedgerHistory(t *testing.T, col *Collector, prop string, h lHist) {
 			x.nontriv = true
 		}
 		x.invariants(fmt.Sprintf("after tx %d (%s %s)", k, op.Op, res.Kind()))
-		if k%2 == 1 {
+		if k%2 == 1 && op.Op != "feed_ext" {
 			if !x.block(5) {
 				return
 			}
@@ -1097,6 +1417,9 @@ func runLedgerHistory(t *testing.T, col *Collector, prop string, h lHist) {
 	}
 	x.step = len(h.Ops)
 	x.block(5)
+	if h.Two {
+		x.count("two_pool_histories", 1)
+	}
 	if x.c01 != nil {
 		col.Case(h.ID, x.c01.caseText(h.ID))
 		col.mu.Lock()
@@ -1108,7 +1431,12 @@ func runLedgerHistory(t *testing.T, col *Collector, prop string, h lHist) {
 		col.Case(h.ID, x.c11.caseText(h.ID))
 	}
 	if x.c09 != nil {
-		col.Case(h.ID, "("+x.c09.caseText(h.ID)+",\n "+x.c09b.caseText(h.ID)+")")
+		bcs := x.c09b.caseText(h.ID)
+		if x.c09b2 != nil {
+			bcs += ";\n " + x.c09b2.caseText(h.ID+1000000)
+			x.c09b2.finish(col)
+		}
+		col.Case(h.ID, "("+x.c09.caseText(h.ID)+",\n ["+bcs+"])")
 		x.c09b.finish(col)
 		col.mu.Lock()
 		n, _ := col.rep.Extra["mtps_created"].(int)
@@ -1200,7 +1528,7 @@ func runLedger(t *testing.T, prop string) {
 	case "C06":
 		header, footer = c06CoqHeader, c06CoqFooter
 	case "C08":
-		header = "From Coq Require Import ZArith List Bool.\nFrom Elys Require Import Base.Res Base.Fn Models.SumLedger Models.LevLedger Run.LevLedgerRun.\nImport ListNotations.\nOpen Scope Z_scope.\n"
+		header = "From Coq Require Import ZArith List Bool.\nFrom Elys Require Import Base.Res Base.Fn Models.SumLedger Models.LevLedger Models.LevLedgerMulti Run.LevLedgerMultiRun.\nImport ListNotations.\nOpen Scope Z_scope.\n"
 		footer = "Definition M := Eval vm_compute in mismatches cases.\nPrint M.\n"
 	}
 	col.Finish(t, len(hists), header, footer, 12)
@@ -1230,6 +1558,70 @@ func ledgerCorpus() []lHist {
 			{Op: "lev_open", U: 3, Amt: "10000000", Lev: "5", P: "0"}, {Op: "blocks", N: 1, DT: 3700},
 			{Op: "lev_close_positions", U: 4, Idx: 0, Dir: 0}, {Op: "price", P: "0.5"}, {Op: "lev_close_positions", U: 4, Idx: 0, Dir: 0},
 			{Op: "lev_close", U: 3, Idx: 0, Rel: 3}, {Op: "lev_close", U: 3, Idx: 0, Rel: 5}}},
+		{Ops: []lOp{ // a batch whose HEAD is liquidatable with a payout left (price steered to just below its threshold), followed by another position of the same pool
+			{Op: "perp_open", U: 0, Amt: "2681668", Rel: 1, Lev: "10"}, {Op: "perp_open", U: 1, Dir: 2, Amt: "6793680", Rel: 2, Lev: "8"},
+			{Op: "swap_in", U: 4, V: 3, Dir: 1, Amt: "5430898", Rel: 3}, {Op: "blocks", N: 1, DT: 3700},
+			{Op: "steer"}, {Op: "perp_close_positions", U: 1, N: 8}, {Op: "blocks", N: 1, DT: 5}}},
+		{Ops: []lOp{ // take-profit prices one price move away, the move, a third party's take-profit batch (the rarely used list), then the rest is closed
+			{Op: "perp_open", U: 1, Dir: 0, Amt: "800000000", Lev: "3", Rel: 2}, {Op: "perp_open", U: 2, Dir: 1, Amt: "300000000", Lev: "2", Rel: 2},
+			{Op: "perp_open", U: 3, Dir: 2, Amt: "50000000", Lev: "2", Rel: 2}, {Op: "blocks", N: 1, DT: 3700},
+			{Op: "perp_close_positions", U: 4, Idx: 0, Dir: 2, N: 8}, // not reached yet: nothing may close
+			{Op: "price", P: "1.25"}, {Op: "perp_close_positions", U: 4, Idx: 0, Dir: 2, N: 8}, {Op: "swap_in", U: 0, V: 0, Dir: 0, Amt: "1000000"}, {Op: "blocks", N: 1, DT: 5},
+			{Op: "price", P: "0.5"}, {Op: "perp_close_positions", U: 4, Idx: 0, Dir: 2, N: 8, Rel: 1}, {Op: "blocks", N: 1, DT: 5},
+			{Op: "perp_close", U: 1, Idx: 0, Rel: 5}, {Op: "perp_close", U: 1, Idx: 0, Rel: 5}}},
+		{Ops: []lOp{ // a large long left alone for 200 days against a small short (longs pay funding): the funding due exceeds the custody left; then a
+			// bystander opens and the owner tops up (leverage 0) / consolidates with enough collateral for the merged position
+			{Op: "perp_open", U: 1, Dir: 0, Amt: "1000000000", Lev: "5"}, {Op: "perp_open", U: 2, Dir: 1, Amt: "30000000", Lev: "2"},
+			{Op: "blocks", N: 1, DT: 17280000}, {Op: "perp_open", U: 3, Dir: 0, Amt: "200000000", Lev: "2"},
+			{Op: "perp_open", U: 1, Dir: 0, Amt: "3000000000", Lev: "0"}, {Op: "blocks", N: 1, DT: 5},
+			{Op: "perp_open", U: 1, Dir: 0, Amt: "500000000", Lev: "2"}, {Op: "blocks", N: 1, DT: 17280000},
+			{Op: "perp_open", U: 1, Dir: 0, Amt: "4000000000", Lev: "1.5"}, {Op: "blocks", N: 1, DT: 5},
+			{Op: "perp_close", U: 3, Idx: 2, Rel: 5}, {Op: "perp_close", U: 3, Idx: 0, Rel: 5}, {Op: "perp_close", U: 3, Idx: 0, Rel: 5}}},
+		// ---- two-pool market (second oracle pool uusdc/aweth, 18 decimals, price 2000)
+		{Two: true, Ops: []lOp{ // leveraged-LP position ids vs pool ids: position 1 lives in the SECOND pool (amm pool 3), positions 2 and 3 in the first
+			// (amm pool 1); stop-loss prices far above the LP token price (reached at once); after the one-hour lock a third party's STOP-LOSS batch
+			{Op: "lev_open", U: 1, Amt: "400000000", Lev: "3", P: "1000000", Q: 1}, {Op: "lev_open", U: 2, Amt: "300000000", Lev: "2", P: "1000000"},
+			{Op: "lev_open", U: 3, Amt: "200000000", Lev: "5", P: "1000000"}, {Op: "lev_open", U: 4, Amt: "100000000", Lev: "2", P: "0", Q: 1},
+			{Op: "blocks", N: 1, DT: 3700}, {Op: "lev_close_positions", U: 0, Idx: 0, Dir: 1, N: 8}, {Op: "blocks", N: 1, DT: 5},
+			{Op: "lev_close_positions", U: 0, Idx: 0, Dir: 1, N: 8, Rel: 1}, {Op: "lev_close", U: 4, Idx: 0, Rel: 5}, {Op: "blocks", N: 1, DT: 5}}},
+		{Two: true, Ops: []lOp{ // the 200-day funding gap on the second pool while the first pool has the mirrored market
+			{Op: "perp_open", U: 1, Dir: 0, Amt: "1000000000", Lev: "5", Q: 1}, {Op: "perp_open", U: 2, Dir: 1, Amt: "30000000", Lev: "2", Q: 1},
+			{Op: "perp_open", U: 2, Dir: 0, Amt: "30000000", Lev: "2"}, {Op: "perp_open", U: 1, Dir: 1, Amt: "1000000000", Lev: "3"},
+			{Op: "blocks", N: 1, DT: 17280000}, {Op: "perp_open", U: 3, Dir: 0, Amt: "200000000", Lev: "2", Q: 1},
+			{Op: "perp_open", U: 1, Dir: 0, Amt: "3000000000", Lev: "0", Q: 1}, {Op: "perp_open", U: 2, Dir: 0, Amt: "900000000", Lev: "0"}, {Op: "blocks", N: 1, DT: 5}}},
+		{Two: true, Ops: []lOp{ // take-profit batch listing reached positions of both pools
+			{Op: "perp_open", U: 1, Dir: 0, Amt: "800000000", Lev: "3", Rel: 2}, {Op: "perp_open", U: 1, Dir: 0, Amt: "600000000", Lev: "2", Rel: 2, Q: 1},
+			{Op: "perp_open", U: 2, Dir: 1, Amt: "300000000", Lev: "2", Rel: 2, Q: 1}, {Op: "blocks", N: 1, DT: 3700},
+			{Op: "price", P: "1.25"}, {Op: "price", P: "1.25", Q: 1}, {Op: "perp_close_positions", U: 4, Idx: 0, Dir: 2, N: 8}, {Op: "blocks", N: 1, DT: 5},
+			{Op: "price", P: "0.5", Q: 1}, {Op: "perp_close_positions", U: 4, Idx: 0, Dir: 2, N: 8}, {Op: "blocks", N: 1, DT: 5}}},
+		{Two: true, Ops: []lOp{ // the same on the second pool, with positions of the same owners on the first pool listed in between
+			{Op: "perp_open", U: 0, Amt: "2681668", Rel: 1, Lev: "10", Q: 1}, {Op: "perp_open", U: 0, Amt: "3000000", Lev: "3"},
+			{Op: "perp_open", U: 1, Dir: 2, Amt: "6793680", Rel: 2, Lev: "8", Q: 1}, {Op: "perp_open", U: 1, Dir: 2, Amt: "5000000", Lev: "2"},
+			{Op: "swap_in", U: 4, V: 3, Dir: 1, Amt: "5430898", Rel: 3, Q: 1}, {Op: "blocks", N: 1, DT: 3700},
+			{Op: "steer"}, {Op: "perp_close_positions", U: 1, N: 8}, {Op: "blocks", N: 1, DT: 5}}},
+		{Two: true, Ops: []lOp{ // one owner holds a leveraged-LP position on EACH pool, a second owner only on the second; only aweth crashes; one batch lists all
+			{Op: "lev_open", U: 1, Amt: "2000000000", Lev: "5", P: "0"}, {Op: "lev_open", U: 1, Amt: "3000000000", Lev: "9.5", P: "0", Q: 1},
+			{Op: "lev_open", U: 2, Amt: "70000000", Lev: "10", P: "0", Q: 1}, {Op: "blocks", N: 2, DT: 86400},
+			{Op: "lev_open", U: 1, Amt: "500000000", Lev: "2", P: "0", Q: 1}, // consolidating re-open on the second pool
+			{Op: "lev_close_positions", U: 4, Idx: 0, Dir: 0, N: 8}, {Op: "price", P: "0.5", Q: 1}, {Op: "blocks", N: 1, DT: 5},
+			{Op: "lev_close_positions", U: 4, Idx: 1, Dir: 0, N: 8, Rel: 1}, {Op: "blocks", N: 1, DT: 3700},
+			{Op: "lev_close", U: 1, Idx: 0, Rel: 3}, {Op: "lev_close", U: 1, Idx: 1, Rel: 3}, {Op: "lev_close", U: 1, Idx: 0, Rel: 5}, {Op: "lev_close", U: 1, Idx: 0, Rel: 5},
+			{Op: "lev_close", U: 2, Idx: 0, Rel: 5}, {Op: "blocks", N: 1, DT: 5}}},
+		{Two: true, Ops: []lOp{ // perpetual: the same owner long on both pools (base-currency and trading-asset collateral), shorts on both, funding + interest, mixed batch, closes
+			{Op: "perp_open", U: 1, Dir: 0, Amt: "1000000000", Lev: "3"}, {Op: "perp_open", U: 1, Dir: 2, Amt: "40000000", Lev: "2", Q: 1},
+			{Op: "perp_open", U: 2, Dir: 1, Amt: "300000000", Lev: "2", Q: 1}, {Op: "perp_open", U: 2, Dir: 1, Amt: "200000000", Lev: "2"},
+			{Op: "blocks", N: 2, DT: 3700}, {Op: "perp_open", U: 1, Dir: 2, Amt: "10000000", Lev: "0", Q: 1}, // collateral top-up on the second pool
+			{Op: "perp_close_positions", U: 3, Idx: 0, Dir: 0, N: 8}, {Op: "blocks", N: 1, DT: 86400},
+			{Op: "price", P: "0.5", Q: 1}, {Op: "perp_close_positions", U: 3, Idx: 1, Dir: 0, N: 8, Rel: 1}, {Op: "blocks", N: 1, DT: 5},
+			{Op: "perp_close", U: 1, Idx: 0, Rel: 3}, {Op: "perp_close", U: 1, Idx: 1, Rel: 3}, {Op: "perp_close", U: 2, Idx: 2, Rel: 5}, {Op: "perp_close", U: 2, Idx: 2, Rel: 5},
+			{Op: "perp_close", U: 1, Idx: 0, Rel: 5}, {Op: "perp_close", U: 1, Idx: 0, Rel: 5}, {Op: "blocks", N: 1, DT: 5}}},
+		{Two: true, Ops: []lOp{ // routes over both oracle pools, single-sided 18-decimals liquidity in and out, dust, a position open on each pool meanwhile
+			{Op: "perp_open", U: 3, Dir: 0, Amt: "500000000", Lev: "2", Q: 1}, {Op: "lev_open", U: 3, Amt: "800000000", Lev: "3", P: "0"},
+			{Op: "swap_hop", U: 1, Dir: 5, Amt: "3000000000"}, {Op: "swap_hop", U: 2, Dir: 6, Amt: "2000000000"}, {Op: "blocks", N: 1, DT: 5},
+			{Op: "swap_hop", U: 1, Dir: 7, Amt: "100000000"}, {Op: "swap_hop", U: 2, Dir: 8, Amt: "700000000"}, {Op: "swap_hop", U: 4, Dir: 9, Amt: "50000000"}, {Op: "blocks", N: 1, DT: 5},
+			{Op: "join", U: 4, Dir: 2, Amt: "9000000000", Q: 1}, {Op: "join", U: 4, Dir: 2, Amt: "7", Q: 1, Raw: true}, {Op: "join", U: 4, Dir: 0, Amt: "1000000", Q: 1},
+			{Op: "swap_in", U: 2, V: 2, Dir: 1, Amt: "1", Q: 1, Raw: true}, {Op: "swap_out", U: 2, V: 1, Dir: 0, Amt: "123456789", Q: 1, Rel: 1}, {Op: "blocks", N: 1, DT: 3700},
+			{Op: "exit", U: 4, Dir: 2, Rel: 3, Q: 1}, {Op: "exit", U: 4, Dir: 0, Rel: 5, Q: 1}, {Op: "blocks", N: 1, DT: 5}}},
 	}
 }
 
